@@ -6,7 +6,8 @@ grouping indices); the contracts below are discharged on those sets completely (
   Graph.compress()                post: = sum of 2^pos(i,j) over edges, pos = row-major upper-triangle position (documented layout)
   Graph.decompress(n, id)         post: adjacency = {pairs whose bit is set}; symmetric 0/1 int8, zero diagonal, n vertices
   compress . decompress = id on 0..2^(n(n-1)/2)-1 ;  decompress . compress = id on all simple graphs
-  Graph.local_complementation(v)  post: toggles exactly the pairs inside N(v); involution; result simple
+  Graph.local_complementation(v)  post: toggles exactly the pairs inside N(v); involution; result simple - for graphs built from C-ordered, Fortran-ordered,
+                                  transposed and sliced adjacency arrays (the constructor keeps the caller's array, so the layout is part of the input)
   Graph.local_complemented(v)     post: fresh object equal to the above; self unmodified
   lc.same_class                   the classifier gives G and LC_v(G) the same id, and the oracle exhibits the local Clifford
                                   (sqrt(X)-type on v, S on N(v)) mapping one graph state's group onto the other's
@@ -71,12 +72,22 @@ def chunk_graphs(args):
         cid = lcc.determine_lc_class(Stabilizer(g0.copy())).id() if n >= 2 else 0
         cls[gid] = cid
         rows0 = [(x, z) for x, z, _ in G.graph_state_gens(n, adj)]
+        base_arr = _np_adj(n, adj)
+        big = np.zeros((n + 2, n + 3), dtype=np.int8)
+        big[1:n + 1, 2:n + 2] = base_arr
         for v in range(n):
             want = G.lc(n, adj, v)
+            # the in-place operation on graphs built from every memory layout an int8 adjacency array can have (the constructor keeps the caller's array)
+            okl = True
+            for arr in (np.asfortranarray(base_arr.copy()), base_arr.copy().T, big.copy()[1:n + 1, 2:n + 2]):
+                hl = Graph(arr)
+                hl.local_complementation(v)
+                al, ml = _adj_of(hl)
+                okl = okl and al == want and np.array_equal(ml, ml.T) and not np.diag(ml).any() and set(np.unique(ml)) <= {0, 1}
             h = g0.copy()
             h.local_complementation(v)
             ah, mh = _adj_of(h)
-            okp = ah == want and _is_simple_np(mh, n)
+            okp = okl and ah == want and _is_simple_np(mh, n)
             h2 = h.copy()
             h2.local_complementation(v)
             okp = okp and _adj_of(h2)[0] == adj
